@@ -77,11 +77,24 @@ fn size_attrs(rng: &mut Rng, el: &mut El, shape: &str, w: f64, h: f64) {
         }
         "point" => {}
         _ => {
+            // one in four: part of the size comes as a delta (dw / dh / dwh), of either sign; the size
+            // everything else is placed by is the final one
+            let (mut w, mut h) = (w, h);
+            let mut delta: Option<(f64, f64)> = None;
+            if rng.chance(1, 4) && w > 4.0 && h > 4.0 {
+                let (a, b) = (rng.range(-3, 3) as f64, rng.range(-3, 3) as f64);
+                w -= a;
+                h -= b;
+                delta = Some((a, b));
+            }
             if rng.chance(1, 2) {
                 el.push("wh", &if w == h && rng.chance(1, 2) { f(w) } else { format!("{} {}", f(w), f(h)) })
             } else {
                 el.push("width", &f(w));
                 el.push("height", &f(h));
+            }
+            if let Some((a, b)) = delta {
+                if rng.chance(1, 2) { el.push("dwh", &format!("{} {}", f(a), f(b))); } else { el.push("dw", &f(a)); el.push("dh", &f(b)); }
             }
         }
     }
